@@ -12,6 +12,43 @@ THEOREM BandSymmetric ==
     \A i, j, l1, l2, w \in Int : InBandL(i, j, l1, l2, w) <=> InBandL(j, i, l2, l1, w)
   BY DEF InBandL, Mx
 
+\* ... and so are the psi-relaxed corners when the per-series psi entries are swapped along with the series,
+\* and the step relation: transposing an admissible path of (s1, s2, psi) gives an admissible path of
+\* (s2, s1, swapped psi) with the same cells, hence the same cost
+THEOREM CornersSymmetric ==
+    ASSUME NEW i \in Int, NEW j \in Int, NEW l1 \in Int, NEW l2 \in Int,
+           NEW p1b \in Int, NEW p1e \in Int, NEW p2b \in Int, NEW p2e \in Int
+    PROVE  /\ StartOKL(i, j, p1b, p2b) <=> StartOKL(j, i, p2b, p1b)
+           /\ EndOKL(i, j, l1, l2, p1e, p2e) <=> EndOKL(j, i, l2, l1, p2e, p1e)
+  BY Z3 DEF StartOKL, EndOKL
+
+THEOREM StepsSymmetric ==
+    ASSUME NEW i \in Int, NEW j \in Int, NEW i2 \in Int, NEW j2 \in Int
+    PROVE  IsStepL(i, j, i2, j2) <=> IsStepL(j, i, j2, i2)
+  BY Z3 DEF IsStepL
+
+\* C10 monotonicity: a larger window or a larger psi entry only ADDS cells / start points / end points, so the
+\* set of admissible paths grows and the optimum cannot increase
+THEOREM RelaxationsOnlyAdd ==
+    ASSUME NEW i \in Int, NEW j \in Int, NEW l1 \in Int, NEW l2 \in Int, NEW w \in Int,
+           NEW p1b \in Int, NEW p1e \in Int, NEW p2b \in Int, NEW p2e \in Int
+    PROVE  /\ InBandL(i, j, l1, l2, w) => InBandL(i, j, l1, l2, w + 1)
+           /\ StartOKL(i, j, p1b, p2b) => (StartOKL(i, j, p1b + 1, p2b) /\ StartOKL(i, j, p1b, p2b + 1))
+           /\ EndOKL(i, j, l1, l2, p1e, p2e)
+                => (EndOKL(i, j, l1, l2, p1e + 1, p2e) /\ EndOKL(i, j, l1, l2, p1e, p2e + 1))
+<1>1. InBandL(i, j, l1, l2, w) => InBandL(i, j, l1, l2, w + 1)  BY Z3 DEF InBandL, Mx
+<1>2. StartOKL(i, j, p1b, p2b) => (StartOKL(i, j, p1b + 1, p2b) /\ StartOKL(i, j, p1b, p2b + 1))
+  BY Z3 DEF StartOKL
+<1>3. EndOKL(i, j, l1, l2, p1e, p2e) => (EndOKL(i, j, l1, l2, p1e + 1, p2e) /\ EndOKL(i, j, l1, l2, p1e, p2e + 1))
+  BY Z3 DEF EndOKL
+<1>4. QED BY <1>1, <1>2, <1>3
+
+\* window 1 on equal lengths leaves exactly the diagonal (DTW = Euclidean distance)
+THEOREM WindowOneIsDiagonal ==
+    ASSUME NEW i \in Int, NEW j \in Int, NEW l \in Int
+    PROVE  InBandL(i, j, l, l, 1) <=> i = j
+  BY Z3 DEF InBandL, Mx
+
 \* the column loop j_start .. j_end-1 visits exactly the in-band columns of the row
 THEOREM LoopIsBand ==
     ASSUME NEW i \in Int, NEW j \in Int, NEW l1 \in Int, NEW l2 \in Int, NEW w \in Int
